@@ -301,3 +301,19 @@ PROPS["C24"] = dict(
     floor=100,
     stages=[Stage("c24", variant="rel"), Stage("c24", variant="chk", args=["--n", "60"])],
 )
+
+PROPS["C25"] = dict(
+    level="exploration",
+    rule="4000 (thorough 120000) random grid points over queries 1..255, blowup 2..128, grinding 0..32, 3 extensions, 4 folding "
+         "factors, 9 remainder degrees, 9 batching pairs, trace length 2^3..2^30, constraints 1..2^32-1, trace width 1..255, "
+         "field bits {62,64,128}, collision resistance {96,124,128}, plus full sweeps of the queries and grinding axes at "
+         "12 (300) anchors: bits <= collision resistance, conjectured < extension-field bits, is_at_least(b) == (bits >= b) "
+         "around the value, one-step monotonicity along queries / grinding / extension degree for conjectured, unique- and "
+         "list-decoding estimates; 600 (20000) dummy proofs x 9 hasher/field pairs through AcceptableOptions::validate at "
+         "bits-1 / bits / bits+1 / 0 / MAX and option sets with near-miss members; distinct = grid points",
+    assumptions=["the estimator types are private, so estimates are read through Proof::conjectured_security / proven_security "
+                 "on a dummy proof carrying the context (number of committed polynomials = width + blowup as documented there)",
+                 "documented collision resistance: Blake3_256/Sha3_256/Rp64_256/RpJive64_256 128, Blake3_192 96, Rp62_248 124"],
+    floor=500,
+    stages=[Stage("c25", variant="rel"), Stage("c25", variant="chk", args=["--n", "500"])],
+)
